@@ -315,7 +315,8 @@ def must_reject(pt, acc, rng):
     abi = pt.abi
     acc.evaluations += 1
     kind = rng.choice(["width", "arity_more", "arity_less", "elem", "static_len", "txn_type", "count", "txn_not_dict", "dyn_vs_static", "nested_arity", "bool_len",
-                       "static_for_dyn", "address_for_bytes", "staticbytes_for_bytes", "static_for_dyn_in_tuple", "static_for_string", "txn_type_pair", "txn_type_pair"])
+                       "static_for_dyn", "address_for_bytes", "staticbytes_for_bytes", "static_for_dyn_in_tuple", "static_for_string", "txn_type_pair", "txn_type_pair",
+                       "int_expr_uint8", "int_expr_uint16", "int_expr_uint32", "int_expr_byte", "int_expr_bool"])
     x64, x32, s = abi.Uint64(), abi.Uint32(), abi.String()
     t2 = abi.make(abi.Tuple2[abi.Uint64, abi.Bool])
     t3 = abi.make(abi.Tuple3[abi.Uint64, abi.Bool, abi.Uint8])
@@ -328,6 +329,12 @@ def must_reject(pt, acc, rng):
         "static_len": ("m(byte[7])void", [abi.make(abi.StaticArray[abi.Byte, __import__("typing").Literal[8]])]),
         "txn_type": ("m(axfer)void", [pay]),
         "txn_type_pair": None,
+        # an integer-typed expression where an encoded uintN / byte is expected (its encoding is N/8 bytes, not whatever Itob gives)
+        "int_expr_uint8": ("m(uint8)void", [pt.Int(7)]),
+        "int_expr_uint16": ("m(uint16)void", [pt.Int(7) + pt.Int(1)]),
+        "int_expr_uint32": ("m(uint32,uint64)void", [pt.Btoi(pt.Bytes("a")), x64]),
+        "int_expr_byte": ("m(byte)void", [pt.Int(255)]),
+        "int_expr_bool": ("m(bool)void", [pt.Int(1)]),
         "count": ("m(uint64,uint64)void", [x64]),
         "txn_not_dict": ("m(pay)void", [x64]),
         "dyn_vs_static": ("m(uint64[2])void", [abi.make(abi.DynamicArray[abi.Uint64])]),
